@@ -232,3 +232,18 @@ def run_model_sharded(lines: list[str], shards: int = 8, timeout: int = 900) -> 
     with ThreadPoolExecutor(max_workers=shards) as ex:
         outs = list(ex.map(lambda c: run_model(c, timeout), chunks))
     return [x for o in outs for x in o]
+
+
+def canon_floats(line: str) -> str:
+    """re-spell every float literal token through CPython's float()/repr() so that '1.' and '1.0' compare equal"""
+    if " f" not in line and not line.startswith("f"):
+        return line
+    out = []
+    for t in line.split(" "):
+        if t[:1] == "f" and (len(t) == 1 or t[1].isdigit()):
+            try:
+                t = "f" + cps(repr(float(uncps(t[1:]))))
+            except ValueError:
+                pass
+        out.append(t)
+    return " ".join(out)
